@@ -117,6 +117,11 @@ def imsiPrefix : Bytes := [105, 109, 115, 105, 45]
 
 def hasImsiPrefix (s : Bytes) : Bool := s.take 5 == imsiPrefix
 
+/-- `NewCHFUe`: the SUPI starts with "imsi-" and can name the subscriber's CDR file /tmp/<supi>.cdr
+    (no path separator, no NUL octet, at most 255 octets with the extension) -/
+def supiAccepted (s : Bytes) : Bool :=
+  hasImsiPrefix s && !s.contains 47 && !s.contains 0 && decide (s.length + 4 ≤ 255)
+
 def findUe : List Ue → Bytes → Option Ue
   | [], _ => none
   | u :: r, s => if u.supi = s then some u else findUe r s
@@ -309,7 +314,7 @@ def create (s : State) (r : Req) : State × Resp :=
   match r.nf with
   | none => (s, { status := 400 })
   | some nf =>
-    if ¬ hasImsiPrefix r.supi then (s, { status := 400 })
+    if ¬ supiAccepted r.supi then (s, { status := 400 })
     else
       let ue : Ue := match findUe s.ues r.supi with
         | some u => u
